@@ -115,6 +115,7 @@ inductive Ev
   | retryOk (now : Nat) (a : String) (rt : Nat)             -- `Retryer.onConnected`
   | recycle (a : String)                                    -- the recycler's timer for node `a`
   | reload (rule : Rule)                                    -- rule update keeping the breakers
+  | rebuild (rule : Rule) (now : Nat) (reuseStat : Bool)    -- rule update with a changed breaker part: all breakers rebuilt Closed
 
 def step (r : Res) : Ev → Res
   | .check now ord => (r.check now ord).1
@@ -122,6 +123,23 @@ def step (r : Res) : Ev → Res
   | .retryOk now a rt => r.retryOk now a rt
   | .recycle a => r.recycle a
   | .reload rule => { r with rule := rule }
+  | .rebuild rule now reuse => r.rebuild rule now reuse
+
+/-- **A reload that rebuilds the node breakers (all Closed) does not change the recycler's status map**:
+    a node scheduled before the reload is still scheduled, a node marked recovered is still marked. -/
+theorem rebuild_keeps_status (r : Res) (rule : Rule) (now : Nat) (reuse : Bool) :
+    (r.rebuild rule now reuse).status = r.status := rfl
+
+/-- … nor the set of known nodes, and every rebuilt breaker is Closed -/
+theorem rebuild_nodes (r : Res) (rule : Rule) (now : Nat) (reuse : Bool) :
+    (r.rebuild rule now reuse).nodes.map (·.1) = r.nodes.map (·.1) ∧
+    ∀ p ∈ (r.rebuild rule now reuse).nodes, p.2.state = .closed := by
+  unfold Res.rebuild
+  refine ⟨by simp [List.map_map, Function.comp_def], ?_⟩
+  intro p hp
+  simp only [List.mem_map] at hp
+  obtain ⟨q, _, rfl⟩ := hp
+  rfl
 
 /-- node `a` is in the recycler's map and marked recovered -/
 def Recovered (st : Status) (a : String) : Prop := hasKey st a = true ∧ ∀ p ∈ st, p.1 = a → p.2 = true
@@ -213,6 +231,7 @@ private theorem recovered_step {r : Res} {a : String} (h : Recovered r.status a)
     have hb : b ≠ a := fun hba => he (by rw [hba])
     exact recovered_recycle h b hb
   | reload rule => exact h
+  | rebuild rule now reuse => exact h
 
 private theorem recovered_foldl {a : String} (evs : List Ev) (r₁ : Res) (h0 : Recovered r₁.status a)
     (hno : ∀ e ∈ evs, e ≠ .recycle a) : Recovered (evs.foldl step r₁).status a := by
@@ -238,7 +257,8 @@ theorem recycle_keeps_recovered (r : Res) (a : String) (h : Recovered r.status a
 /-- **A node that completes a request successfully is not recycled.**  Node `a` has been handed to the
     recycler (it is in the status map); it then completes a request without error; whatever happens
     next to the resource — requests in any iteration order, completions of any node with any outcome,
-    active-recovery results, timers of other nodes, rule reloads — when `a`'s own timer fires, the
+    active-recovery results, timers of other nodes, rule reloads (including reloads that rebuild every
+    breaker as Closed) — when `a`'s own timer fires, the
     node map is left untouched (in particular `a` keeps its breaker). -/
 theorem successful_node_not_recycled (r : Res) (a : String) (now rt : Nat) (evs : List Ev)
     (ha : a ≠ "") (hs : hasKey r.status a = true) (hno : ∀ e ∈ evs, e ≠ .recycle a) :
